@@ -325,8 +325,8 @@ func largeFileReceive(wrt http.ResponseWriter, req *http.Request) {
 		return
 	}
 
-	fdef, err = store.Files.FinishUpload(fdef, true, size)
-	if err != nil {
+	// FinishUpload returns nil record on failure: keep fdef for logging and cleanup.
+	if _, err = store.Files.FinishUpload(fdef, true, size); err != nil {
 		logs.Info.Println("media upload: failed to finalize", file, "key", fdef.Location, err)
 		// Best effort cleanup.
 		mh.Delete([]string{fdef.Location})
